@@ -15,6 +15,7 @@
              "block -> group map: a stub geometry in which the ghost group g_G owns the block interval [GF, GL] and every other block belongs to some other valid group whose last block is arbitrary but consistent (not below the block asked for, below GF if the block is below GF, inside the filesystem); group boundaries are cluster aligned (blocks per group is a multiple of the ratio, s_first_data_block is 0 with bigalloc)",
              "inuse is +1 or -1 (all call sites pass these literals)",
              "bitmap / descriptor / superblock accessors are stubs over single-index ghost state (alloc_stats_common.h)",
+             "this unit proves everything EXCEPT the values of the two free counts (units block_alloc_stats_range_counts_*)",
              "about the callback only 'called exactly once after the update when installed' is claimed (its arguments: observation unit)"],
  "native": false,
  "backend": "cadical"
@@ -34,6 +35,78 @@
  "assumes": ["as block_alloc_stats_range_r1 with cluster ratio 16"],
  "native": false,
  "backend": "cadical"
+}
+*/
+/* VERIF-UNIT
+{
+ "name": "block_alloc_stats_range_counts_r1_alloc",
+ "props": ["C09"],
+ "level": "U",
+ "tier": "wip",
+ "harness": "h_range",
+ "defines": ["CRB=0", "COUNTS=1", "SIGN=1"],
+ "enforce": ["ext2fs_block_alloc_stats_range"],
+ "loop_contracts": true,
+ "functions": ["lib/ext2fs/alloc_stats.c:ext2fs_block_alloc_stats_range"],
+ "assumes": ["the COUNT VALUES half of the contract of block_alloc_stats_range_r1 (ghost group's free count, superblock free count), for inuse == 1, on cvc5 (the loop body multiplies by the constant 2^64-1; SAT back ends do not prove (2^64-1)*n == -n)",
+             "otherwise exactly the assumptions of block_alloc_stats_range_r1"],
+ "native": false,
+ "timeout": 600,
+ "backend": "cvc5"
+}
+*/
+/* VERIF-UNIT
+{
+ "name": "block_alloc_stats_range_counts_r1_free",
+ "props": ["C09"],
+ "level": "U",
+ "tier": "wip",
+ "harness": "h_range",
+ "defines": ["CRB=0", "COUNTS=1", "SIGN=-1"],
+ "enforce": ["ext2fs_block_alloc_stats_range"],
+ "loop_contracts": true,
+ "functions": ["lib/ext2fs/alloc_stats.c:ext2fs_block_alloc_stats_range"],
+ "assumes": ["the COUNT VALUES half of the contract of block_alloc_stats_range_r1 (ghost group's free count, superblock free count), for inuse == -1, on cvc5 (the loop body multiplies by the constant 2^64-1; SAT back ends do not prove (2^64-1)*n == -n)",
+             "otherwise exactly the assumptions of block_alloc_stats_range_r1"],
+ "native": false,
+ "timeout": 600,
+ "backend": "cvc5"
+}
+*/
+/* VERIF-UNIT
+{
+ "name": "block_alloc_stats_range_counts_r16_alloc",
+ "props": ["C09"],
+ "level": "U",
+ "tier": "wip",
+ "harness": "h_range",
+ "defines": ["CRB=4", "COUNTS=1", "SIGN=1"],
+ "enforce": ["ext2fs_block_alloc_stats_range"],
+ "loop_contracts": true,
+ "functions": ["lib/ext2fs/alloc_stats.c:ext2fs_block_alloc_stats_range"],
+ "assumes": ["the COUNT VALUES half of the contract of block_alloc_stats_range_r16 (ghost group's free count, superblock free count), for inuse == 1, on cvc5 (the loop body multiplies by the constant 2^64-1; SAT back ends do not prove (2^64-1)*n == -n)",
+             "otherwise exactly the assumptions of block_alloc_stats_range_r16"],
+ "native": false,
+ "timeout": 600,
+ "backend": "cvc5"
+}
+*/
+/* VERIF-UNIT
+{
+ "name": "block_alloc_stats_range_counts_r16_free",
+ "props": ["C09"],
+ "level": "U",
+ "tier": "wip",
+ "harness": "h_range",
+ "defines": ["CRB=4", "COUNTS=1", "SIGN=-1"],
+ "enforce": ["ext2fs_block_alloc_stats_range"],
+ "loop_contracts": true,
+ "functions": ["lib/ext2fs/alloc_stats.c:ext2fs_block_alloc_stats_range"],
+ "assumes": ["the COUNT VALUES half of the contract of block_alloc_stats_range_r16 (ghost group's free count, superblock free count), for inuse == -1, on cvc5 (the loop body multiplies by the constant 2^64-1; SAT back ends do not prove (2^64-1)*n == -n)",
+             "otherwise exactly the assumptions of block_alloc_stats_range_r16"],
+ "native": false,
+ "timeout": 600,
+ "backend": "cvc5"
 }
 */
 /* VERIF-UNIT
@@ -118,15 +191,25 @@ void ext2fs_unmark_block_bitmap_range2(ext2fs_block_bitmap bmap, blk64_t block, 
 /* in-place loop contract of the per-group loop; B0/N0 = range on loop entry */
 #define LE(x) __CPROVER_loop_entry(x)
 #undef VERIF_INV_BLOCK_ALLOC_STATS_RANGE
+/* The two products inuse*n and -inuse*(blk64_t)n of the loop body multiply by the constant 2^64-1 in one of the two
+ * directions; no SAT back end proves (2^64-1)*n == -n, cvc5 does, but is slow on the rest.  So the statement is split:
+ * the units without COUNTS prove everything except the VALUES of the two counts (SAT), the *_counts units prove
+ * exactly the two count values (cvc5).  Same real code, same stubs, disjoint halves of the same contract. */
+#ifdef COUNTS
+#define INV_PART \
+	__CPROVER_loop_invariant(g_gfree == MOVED(LE(g_gfree), (unsigned int)(ISECT(LE(blk), blk) >> CRB), inuse)) \
+	__CPROVER_loop_invariant(g_sfree == MOVED(LE(g_sfree), blk - LE(blk), inuse))
+#else
+#define INV_PART \
+	__CPROVER_loop_invariant(g_gflags == (ISECT(LE(blk), blk) ? (LE(g_gflags) & ~(unsigned int)EXT2_BG_BLOCK_UNINIT) : LE(g_gflags))) \
+	__CPROVER_loop_invariant(g_gfresh == 1 && g_badgroup == 0)
+#endif
 #define VERIF_INV_BLOCK_ALLOC_STATS_RANGE \
 	__CPROVER_assigns(blk, num, g_gfree, g_gflags, g_gfresh, g_sfree, g_other, g_badgroup, g_touch, g_gof_arg) \
 	__CPROVER_loop_invariant(inuse == 1 || inuse == -1) \
 	__CPROVER_loop_invariant(num <= LE(num) && blk == LE(blk) + (LE(num) - num)) \
 	__CPROVER_loop_invariant((blk & MASK) == 0 && (num & MASK) == 0) \
-	__CPROVER_loop_invariant(g_gfree == MOVED(LE(g_gfree), (unsigned int)(ISECT(LE(blk), blk) >> CRB), inuse)) \
-	__CPROVER_loop_invariant(g_gflags == (ISECT(LE(blk), blk) ? (LE(g_gflags) & ~(unsigned int)EXT2_BG_BLOCK_UNINIT) : LE(g_gflags))) \
-	__CPROVER_loop_invariant(g_gfresh == 1 && g_badgroup == 0) \
-	__CPROVER_loop_invariant(g_sfree == MOVED(LE(g_sfree), blk - LE(blk), inuse)) \
+	INV_PART \
 	__CPROVER_decreases(num)
 
 void ext2fs_block_alloc_stats_range(ext2_filsys fs, blk64_t blk, blk_t num, int inuse)
@@ -140,27 +223,32 @@ void ext2fs_block_alloc_stats_range(ext2_filsys fs, blk64_t blk, blk_t num, int 
 	REQUIRES(g_G < fs->group_desc_count && IN.grp[0] < fs->group_desc_count && IN.grp[0] != g_G)
 	REQUIRES(g_gfresh == 1 && g_cb_calls == 0 && g_badgroup == 0 && g_touch == 0)
 	ASSIGNS(GHOSTS, fs->flags)
+#ifdef COUNTS
+	/* valid range: the ghost group's free count moves by the clusters of the range inside the group, the superblock's
+	 * by the whole range */
+	ENSURES(!ACTIVE(fs, blk, num, inuse) ||
+		g_gfree == MOVED(OLD(g_gfree), (unsigned int)(ISECT(blk, blk + num) >> CRB), inuse))
+	ENSURES(!ACTIVE(fs, blk, num, inuse) || g_sfree == MOVED(OLD(g_sfree), (unsigned long long)num, inuse));
+#else
 	/* invalid range or inuse == 0: nothing changes, nobody is told */
 	ENSURES(ACTIVE(fs, blk, num, inuse) || (g_bit == OLD(g_bit) && g_gfree == OLD(g_gfree) && g_gflags == OLD(g_gflags) &&
 		g_sfree == OLD(g_sfree) && g_cb_calls == 0 && g_gfresh == 1))
 	ENSURES(RANGE_VALID(fs, blk, num) || (g_touch == 0 && fs->flags == OLD(fs->flags)))
-	/* valid range: bitmap, ghost group's count and flags, superblock count, dirty flags move together */
+	/* valid range: bitmap, ghost group's flags and checksum, dirty flags */
 	ENSURES(!ACTIVE(fs, blk, num, inuse) || g_bit == (num && KIN(blk, num) ? (inuse > 0) : OLD(g_bit)))
-	ENSURES(!ACTIVE(fs, blk, num, inuse) ||
-		g_gfree == MOVED(OLD(g_gfree), (unsigned int)(ISECT(blk, blk + num) >> CRB), inuse))
 	ENSURES(!ACTIVE(fs, blk, num, inuse) ||
 		g_gflags == (ISECT(blk, blk + num) ? (OLD(g_gflags) & ~(unsigned int)EXT2_BG_BLOCK_UNINIT) : OLD(g_gflags)))
 	ENSURES(!ACTIVE(fs, blk, num, inuse) || g_gfresh == 1)
-	ENSURES(!ACTIVE(fs, blk, num, inuse) || g_sfree == MOVED(OLD(g_sfree), (unsigned long long)num, inuse))
 	ENSURES(!ACTIVE(fs, blk, num, inuse) || fs->flags == (OLD(fs->flags) | EXT2_FLAG_DIRTY | EXT2_FLAG_CHANGED | EXT2_FLAG_BB_DIRTY))
 	ENSURES(g_badgroup == 0 && g_gdirs == OLD(g_gdirs) && g_gunused == OLD(g_gunused))
 	/* the allocation callback (e2fsck / resize2fs keep their own maps with it) is called once, after the update */
 	ENSURES(!ACTIVE(fs, blk, num, inuse) || (fs->block_alloc_stats_range ?
-		(g_cb_calls == 1 && g_cb_flags_seen == fs->flags && g_cb_sfree_seen == g_sfree
+		(g_cb_calls == 1 && g_cb_flags_seen == fs->flags
 #ifdef FULL
 		 && g_cb_blk == blk && g_cb_num == num && (g_cb_inuse > 0) == (inuse > 0) && g_cb_inuse != 0
 #endif
 		) : g_cb_calls == 0));
+#endif
 
 #include "lib/ext2fs/alloc_stats.c"
 
@@ -188,12 +276,25 @@ static void range_body(void)
 
 	/* every call site passes the literal +1 or -1; two calls with a constant keep the products inuse*n constant-folded
 	 * (a symbolic +-1 factor in two 64-bit products does not terminate in the solver) */
+#ifdef SIGN
+	ASSUME(IN.inuse == SIGN);
+#else
 	ASSUME(IN.inuse == 1 || IN.inuse == -1);
+#endif
 	if (IN.inuse > 0)
 		ext2fs_block_alloc_stats_range(&FS, IN.blk, IN.num, 1);
 	else
 		ext2fs_block_alloc_stats_range(&FS, IN.blk, IN.num, -1);
 
+#ifdef COUNTS
+	if (active) {
+		unsigned long long isect = ISECT(IN.blk, IN.blk + IN.num);
+		unsigned int nc = (unsigned int)(isect >> CRB);
+		CHECK(g_gfree == (IN.inuse > 0 ? gfree0 - nc : gfree0 + nc), "ghost group's free count moves by the clusters of the range inside the group");
+		CHECK(g_sfree == (IN.inuse > 0 ? sfree0 - IN.num : sfree0 + IN.num), "superblock free blocks move by num");
+		REACH("active");
+	}
+#else
 	if (!active) {
 		CHECK(g_bit == bit0 && g_gfree == gfree0 && g_gflags == gflags0 && g_sfree == sfree0 && g_cb_calls == 0,
 		      "invalid range or inuse == 0: nothing changes");
@@ -201,12 +302,9 @@ static void range_body(void)
 		REACH("inactive");
 	} else {
 		unsigned long long isect = ISECT(IN.blk, IN.blk + IN.num);
-		unsigned int nc = (unsigned int)(isect >> CRB);
 		CHECK(g_bit == (IN.num && KIN(IN.blk, IN.num) ? (IN.inuse > 0) : bit0), "bitmap: exactly the clusters of the range become inuse");
-		CHECK(g_gfree == (IN.inuse > 0 ? gfree0 - nc : gfree0 + nc), "ghost group's free count moves by the clusters of the range inside the group");
 		CHECK(g_gflags == (isect ? (gflags0 & ~(unsigned int)EXT2_BG_BLOCK_UNINIT) : gflags0), "BLOCK_UNINIT cleared iff the group is touched");
 		CHECK(g_gfresh == 1, "descriptor checksum current");
-		CHECK(g_sfree == (IN.inuse > 0 ? sfree0 - IN.num : sfree0 + IN.num), "superblock free blocks move by num");
 		CHECK(FS.flags == (flags0 | EXT2_FLAG_DIRTY | EXT2_FLAG_CHANGED | EXT2_FLAG_BB_DIRTY), "dirty flags");
 		CHECK(IN.have_cb ? g_cb_calls == 1 : g_cb_calls == 0, "callback called once when installed");
 #ifdef FULL
@@ -217,6 +315,7 @@ static void range_body(void)
 		if (isect == 0 && IN.num) REACH("range misses the ghost group");
 	}
 	CHECK(g_badgroup == 0, "descriptor accessors only called with a valid group");
+#endif
 	REACH("end");
 }
 
